@@ -193,6 +193,10 @@ def unforge_address(data: bytes) -> str:
         b'\x00\x03': b'tz4',
     }
 
+    if len(data) == 21:
+        # key_hash form: curve tag followed by the 20-byte hash (no leading address-kind byte)
+        return base58_encode(data[1:], tz_prefixes[b'\x00' + data[:1]]).decode()
+
     for bin_prefix, tz_prefix in tz_prefixes.items():
         if data.startswith(bin_prefix):
             return base58_encode(data[2:], tz_prefix).decode()
